@@ -612,7 +612,8 @@ def validate(chk, by_sc, locked=False, max_rounds=12, bridges=None, start_resync
         cfg = cfg_text(P or ["p1"], C or ["c1"], A or ["a1"], False, False, [0], ALLP, ALLC, ALLF, True,
                        "trace-locked" if locked else "trace", bridges=bridges)
         trace = "\n".join(json.dumps(e, separators=(",", ":")) for e in events) + "\n"
-        r = vlib.tlc(SPECDIR, "Broker_Trace", "T.cfg", workers=1, files={"T.cfg": cfg, "trace.ndjson": trace}, timeout=1800)
+        r = vlib.tlc(SPECDIR, "Broker_Trace", "T.cfg", workers=1, files={"T.cfg": cfg, "trace.ndjson": trace},
+                     timeout=600 if getattr(chk, "tier", "quick") == "quick" else 1800)   # normal: seconds (quick), minutes (thorough)
         chk.add_tlc(r)
         if r.error is None:
             accepted += len(ids)
